@@ -251,7 +251,8 @@ def r10_3(ctx):
             saved, other = [], []
             ctx_obj = make_ctx(saved, other)
             YS, E = nf.sym("YS"), (nf.sym("E1"), nf.sym("E2"))
-            solver = Obj("solver", attrs={"integrate": Intrinsic("integrate", lambda it, a, k, n2, f: (YS, E))})
+            solver = Obj("solver", attrs={"integrate": Intrinsic("integrate", lambda it, a, k, n2, f: (YS, E)), "adaptive": True,
+                                          "dt": nf.sym("dt", True), "dt_min": nf.sym("dt_min", True), "options": {}})
             it = Interp(model, solverkit.StepHooks())
             ex_in = (nf.sym("X1"), nf.sym("X2"))
             P = (nf.sym("P1"),)
